@@ -33,7 +33,7 @@ Verdict == Mode = "judge" =>
   LET c == Data[k] IN
   PrintT(ToJson([k |-> k, wf |-> WellFormed(c.sig, c.call),
                  bind |-> (c.echo = Bind(c.sig, c.call)),
-                 ret |-> (c.form # "await" \/ c.ret = c.expret),
+                 ret |-> (c.form # "await" \/ c.ret = c.expret),  \* (pair programs are recorded with form "activate" / "mutable")
                  private |-> (c.caller_ok /\ c.sibling_ok),
                  exp |-> Bind(c.sig, c.call)]))
 ASSUME \A s \in {x \in Sigs : Len(x) <= 2} : \A c \in Calls(s) : WellFormed(s, c)
